@@ -34,3 +34,7 @@ BOTH(ACT1, elu) BOTH(ACT1, celu) BOTH(ACT0, selu) BOTH(ACT0, sigmoid) BOTH(ACT0,
 // default parameters (declared as float in the front ends) applied to a float array
 #define ACTD(op) KERNEL int K(k_##op##_def_f32)(float x, float* out){ nmtools_array<float,1> a{x}; return get0(view::op(a), out); }
 ACTD(hardtanh) ACTD(leaky_relu) ACTD(prelu) ACTD(hardshrink) ACTD(softshrink) ACTD(elu) ACTD(celu) ACTD(softplus)
+// reference operations for the harness: the bare C++ operators (no nmtools code), compiled through the same pipeline
+#define REFOP(n, T, TN, o) KERNEL T K(k_ref_##n##_##TN)(T a, T b){ return a o b; }
+REFOP(fadd, float, f32, +) REFOP(fsub, float, f32, -) REFOP(fmul, float, f32, *) REFOP(fdiv, float, f32, /)
+REFOP(fadd, double, f64, +) REFOP(fsub, double, f64, -) REFOP(fmul, double, f64, *) REFOP(fdiv, double, f64, /)
